@@ -2343,3 +2343,893 @@ theorem Outcome.within_ne {b : Nat} {o : Outcome} (h : o.within b) : o ≠ .outO
   intro hc; subst hc; exact h
 
 end Regress.VM.Pk
+
+namespace Regress.VM.Pk
+open Regress.VM.Bt (LoopData)
+
+/-! ## (d) Programs with general loops (PikeVM): the lexicographic rank -/
+
+/-- Largest value of the digit of an instruction. -/
+def digitMax : Insn → Nat
+  | .enterLoop _ mn _ _ _ => 2 * (mn + 1) + 1
+  | _ => 0
+
+/-- What a loop still may do: `2 * (free iterations left) + (1 if the position moved since entry)`. -/
+def loopActual (mn : Nat) (pos : Nat) : Option LoopData → Nat
+  | some ld => 2 * (mn + 1 - ld.iters) + (if ld.entry = pos then 0 else 1)
+  | none => 0
+
+/-- The digit of the instruction `i` at index `j` in the configuration `(ip, pos, loops)`:
+for `enterLoop`: maximal while `ip ≤ j` (the loop is still ahead), `loopActual` inside the body,
+`0` after the loop. -/
+def digit (j : Nat) (i : Insn) (ip pos : Nat) (loops : Array LoopData) : Nat :=
+  match i with
+  | .enterLoop id mn _ _ exit =>
+    if ip ≤ j then 2 * (mn + 1) + 1
+    else if ip < exit then loopActual mn pos loops[id]?
+    else 0
+  | _ => 0
+
+theorem loopActual_le (mn pos : Nat) (o : Option LoopData) : loopActual mn pos o ≤ 2 * (mn + 1) + 1 := by
+  cases o with
+  | none => simp [loopActual]
+  | some ld => simp only [loopActual]; split <;> omega
+
+theorem digit_le_max (j : Nat) (i : Insn) (ip pos : Nat) (loops : Array LoopData) :
+    digit j i ip pos loops ≤ digitMax i := by
+  cases i <;> simp only [digit, digitMax, Nat.le_refl]
+  rename_i id mn mx g exit
+  split
+  · omega
+  · split
+    · exact loopActual_le _ _ _
+    · omega
+
+/-- Monotonicity in `ip` (same position and loop data). -/
+theorem digit_mono_ip (j : Nat) (i : Insn) {ip ip' : Nat} (h : ip ≤ ip') (pos : Nat)
+    (loops : Array LoopData) : digit j i ip' pos loops ≤ digit j i ip pos loops := by
+  cases i <;> simp only [digit, Nat.le_refl]
+  rename_i id mn mx g exit
+  by_cases h1 : ip' ≤ j
+  · have : ip ≤ j := by omega
+    simp [h1, this]
+  · by_cases h0 : ip ≤ j
+    · simp only [h1, h0, if_true, if_false]
+      split
+      · exact loopActual_le _ _ _
+      · omega
+    · simp only [h1, h0, if_false]
+      by_cases h2 : ip' < exit
+      · have : ip < exit := by omega
+        simp [h2, this]
+      · simp [h2]
+
+/-- Product of the radices from an instruction list on (the last radix `n + 1` is for `n - ip`). -/
+def wFrom (n : Nat) : List Insn → Nat
+  | [] => n + 1
+  | i :: is => (digitMax i + 1) * wFrom n is
+
+/-- Mixed-radix encoding of the digits of `is` (first instruction at index `j`), then `n - ip`. -/
+def encFrom (n ip pos : Nat) (loops : Array LoopData) : Nat → List Insn → Nat
+  | _, [] => n - ip
+  | j, i :: is => digit j i ip pos loops * wFrom n is + encFrom n ip pos loops (j + 1) is
+
+theorem wFrom_pos (n : Nat) (is : List Insn) : 1 ≤ wFrom n is := by
+  induction is with
+  | nil => simp [wFrom]
+  | cons i is ih => simp only [wFrom]; exact Nat.mul_pos (by omega) ih
+
+theorem encFrom_lt (n ip pos : Nat) (loops : Array LoopData) : ∀ (is : List Insn) (j : Nat),
+    encFrom n ip pos loops j is < wFrom n is := by
+  intro is
+  induction is with
+  | nil => intro j; simp only [encFrom, wFrom]; omega
+  | cons i is ih =>
+    intro j
+    simp only [encFrom, wFrom]
+    have h1 := ih (j + 1)
+    have h2 := digit_le_max j i ip pos loops
+    have h3 := Nat.mul_le_mul_right (wFrom n is) h2
+    rw [Nat.add_mul, Nat.one_mul]
+    omega
+
+/-- Lexicographic decrease, case "all digits `≤`, and `ip` increased". -/
+theorem encFrom_lt_of_le (n : Nat) {ip pos ip' pos' : Nat} {loops loops' : Array LoopData}
+    (hip : n - ip' < n - ip) : ∀ (is : List Insn) (j0 : Nat),
+    (∀ k i, is[k]? = some i → digit (j0 + k) i ip' pos' loops' ≤ digit (j0 + k) i ip pos loops) →
+    encFrom n ip' pos' loops' j0 is < encFrom n ip pos loops j0 is := by
+  intro is
+  induction is with
+  | nil => intro j0 _; simpa [encFrom] using hip
+  | cons i is ih =>
+    intro j0 hle
+    simp only [encFrom]
+    have h0 := hle 0 i (by simp)
+    rw [Nat.add_zero] at h0
+    have hrec := ih (j0 + 1) (by
+      intro k i' hk
+      have := hle (k + 1) i' (by simpa using hk)
+      rwa [show j0 + (k + 1) = j0 + 1 + k by omega] at this)
+    have := Nat.mul_le_mul_right (wFrom n is) h0
+    omega
+
+/-- Lexicographic decrease, case "digits before index `b` are `≤`, digit `b` is `<`". -/
+theorem encFrom_lt_of_digit (n : Nat) {ip pos ip' pos' : Nat} {loops loops' : Array LoopData} :
+    ∀ (is : List Insn) (j0 b : Nat) (ib : Insn), is[b]? = some ib →
+    digit (j0 + b) ib ip' pos' loops' < digit (j0 + b) ib ip pos loops →
+    (∀ k i, k < b → is[k]? = some i → digit (j0 + k) i ip' pos' loops' ≤ digit (j0 + k) i ip pos loops) →
+    encFrom n ip' pos' loops' j0 is < encFrom n ip pos loops j0 is := by
+  intro is
+  induction is with
+  | nil => intro j0 b ib h; simp at h
+  | cons i is ih =>
+    intro j0 b ib hb hlt hle
+    simp only [encFrom]
+    have hbound := encFrom_lt n ip' pos' loops' is (j0 + 1)
+    cases b with
+    | zero =>
+      simp only [List.getElem?_cons_zero, Option.some.injEq] at hb
+      subst hb
+      rw [Nat.add_zero] at hlt
+      have := Nat.mul_le_mul_right (wFrom n is) (show digit j0 i ip' pos' loops' + 1 ≤ digit j0 i ip pos loops from hlt)
+      rw [Nat.add_mul, Nat.one_mul] at this
+      omega
+    | succ b =>
+      have h0 := hle 0 i (by omega) (by simp)
+      rw [Nat.add_zero] at h0
+      have hrec := ih (j0 + 1) b ib (by simpa using hb)
+        (by rwa [show j0 + (b + 1) = j0 + 1 + b by omega] at hlt)
+        (by
+          intro k i' hk hki
+          have := hle (k + 1) i' (by omega) (by simpa using hki)
+          rwa [show j0 + (k + 1) = j0 + 1 + k by omega] at this)
+      have := Nat.mul_le_mul_right (wFrom n is) h0
+      omega
+
+end Regress.VM.Pk
+
+namespace Regress.VM.Pk
+open Regress.VM.Bt (LoopData)
+
+/-- The rank of a state: `(rem pos, digits of all instructions…, n - ip)` in mixed radix. Every tick
+replaces a state by states of smaller rank. -/
+def rank (prog : Prog) (L : Nat) (fwd : Bool) (s : State) : Nat :=
+  rem L fwd s.pos * wFrom prog.insns.size prog.insns.toList
+    + encFrom prog.insns.size s.ip s.pos s.loops 0 prog.insns.toList
+
+/-- `rank s < rankBound prog L`. -/
+def rankBound (prog : Prog) (L : Nat) : Nat := (L + 1) * wFrom prog.insns.size prog.insns.toList
+
+theorem rank_lt_bound (prog : Prog) (L : Nat) (fwd : Bool) (s : State) :
+    rank prog L fwd s < rankBound prog L := by
+  unfold rank rankBound
+  have h1 := encFrom_lt prog.insns.size s.ip s.pos s.loops prog.insns.toList 0
+  have h2 := Nat.mul_le_mul_right (wFrom prog.insns.size prog.insns.toList) (rem_le L fwd s.pos)
+  rw [Nat.add_mul, Nat.one_mul]
+  omega
+
+theorem rank_lt_of_rem {prog : Prog} {L : Nat} {fwd : Bool} {s s' : State}
+    (h : rem L fwd s'.pos < rem L fwd s.pos) : rank prog L fwd s' < rank prog L fwd s := by
+  unfold rank
+  have h1 := encFrom_lt prog.insns.size s'.ip s'.pos s'.loops prog.insns.toList 0
+  have h2 := Nat.mul_le_mul_right (wFrom prog.insns.size prog.insns.toList)
+    (show rem L fwd s'.pos + 1 ≤ rem L fwd s.pos from h)
+  rw [Nat.add_mul, Nat.one_mul] at h2
+  omega
+
+theorem rank_lt_of_le {prog : Prog} {L : Nat} {fwd : Bool} {s s' : State}
+    (hpos : s'.pos = s.pos) (hip : s.ip < s'.ip) (hlt : s.ip < prog.insns.size)
+    (hle : ∀ j i, prog.insns[j]? = some i →
+      digit j i s'.ip s'.pos s'.loops ≤ digit j i s.ip s.pos s.loops) :
+    rank prog L fwd s' < rank prog L fwd s := by
+  unfold rank
+  rw [hpos]
+  have := encFrom_lt_of_le prog.insns.size (ip := s.ip) (pos := s.pos) (ip' := s'.ip)
+    (pos' := s'.pos) (loops := s.loops) (loops' := s'.loops) (by omega) prog.insns.toList 0
+    (by intro k i hk; rw [Nat.zero_add]; exact hle k i (by simpa using hk))
+  rw [hpos] at this
+  omega
+
+theorem rank_lt_of_digit {prog : Prog} {L : Nat} {fwd : Bool} {s s' : State}
+    (hpos : s'.pos = s.pos) {b : Nat} {ib : Insn} (hb : prog.insns[b]? = some ib)
+    (hlt : digit b ib s'.ip s'.pos s'.loops < digit b ib s.ip s.pos s.loops)
+    (hle : ∀ j i, j < b → prog.insns[j]? = some i →
+      digit j i s'.ip s'.pos s'.loops ≤ digit j i s.ip s.pos s.loops) :
+    rank prog L fwd s' < rank prog L fwd s := by
+  unfold rank
+  rw [hpos]
+  have := encFrom_lt_of_digit prog.insns.size (ip := s.ip) (pos := s.pos) (ip' := s'.ip)
+    (pos' := s'.pos) (loops := s.loops) (loops' := s'.loops) prog.insns.toList 0 b ib
+    (by simpa using hb) (by rw [Nat.zero_add]; exact hlt)
+    (by intro k i hk hki; rw [Nat.zero_add]; exact hle k i hk (by simpa using hki))
+  rw [hpos] at this
+  omega
+
+/-! ### The structural hypothesis -/
+
+/-- Per-instruction clause of `loopProg`. -/
+def loopInsnOk (prog : Prog) (j : Nat) : Insn → Bool
+  | .jump t => decide (j < t)
+  | .alt s => decide (j < s)
+  | .lookahead .. => false
+  | .lookbehind .. => false
+  | .enterLoop id _ _ _ exit =>
+    decide (j < exit) &&
+    (List.range prog.insns.size).all (fun j' =>
+      j' == j ||
+      match prog.insns[j']? with
+      | some (.enterLoop id' _ _ _ _) => id' != id
+      | _ => true)
+  | .loopAgain b =>
+    decide (b < j) &&
+    (match prog.insns[b]? with
+     | some (.enterLoop _ _ _ _ exit) =>
+       decide (j < exit) &&
+       (List.range b).all (fun j'' =>
+         match prog.insns[j'']? with
+         | some (.enterLoop _ _ _ _ exit'') => !decide (b + 1 < exit'') || decide (j < exit'')
+         | _ => true)
+     | _ => false)
+  | _ => true
+
+/-- Forward jumps/alternations, no look-arounds, and properly nested general loops: every
+`enterLoop` at `j` has `exit > j` and a loop id of its own; every `loopAgain b` at `j` has `b < j`,
+`insns[b]` is an `enterLoop` whose `exit > j`, and every earlier loop whose body contains `b + 1`
+also contains `j`. -/
+def loopProg (prog : Prog) : Bool :=
+  (List.range prog.insns.size).all (fun j =>
+    match prog.insns[j]? with
+    | some i => loopInsnOk prog j i
+    | none => true)
+
+theorem loopProg_insn {prog : Prog} (hf : loopProg prog = true) {j : Nat} {i : Insn}
+    (h : prog.insns[j]? = some i) : loopInsnOk prog j i = true := by
+  have hlt := lt_size_of_getElem? h
+  unfold loopProg at hf
+  rw [List.all_eq_true] at hf
+  have := hf j (List.mem_range.mpr hlt)
+  simpa [h] using this
+
+theorem loopProg_enterLoop {prog : Prog} (hf : loopProg prog = true) {j id mn mx g exit}
+    (h : prog.insns[j]? = some (Insn.enterLoop id mn mx g exit)) :
+    j < exit ∧ ∀ j' id' mn' mx' g' exit', prog.insns[j']? = some (Insn.enterLoop id' mn' mx' g' exit') →
+      j' ≠ j → id' ≠ id := by
+  have := loopProg_insn hf h
+  simp only [loopInsnOk, Bool.and_eq_true, decide_eq_true_eq, List.all_eq_true, List.mem_range,
+    Bool.or_eq_true, beq_iff_eq] at this
+  refine ⟨this.1, ?_⟩
+  intro j' id' mn' mx' g' exit' h' hne
+  have h2 := this.2 j' (lt_size_of_getElem? h')
+  rcases h2 with h2 | h2
+  · exact absurd h2 hne
+  · simpa [h'] using h2
+
+theorem loopProg_loopAgain {prog : Prog} (hf : loopProg prog = true) {j b}
+    (h : prog.insns[j]? = some (Insn.loopAgain b)) :
+    b < j ∧ ∃ id mn mx g exit, prog.insns[b]? = some (Insn.enterLoop id mn mx g exit) ∧ j < exit ∧
+      ∀ j'' id'' mn'' mx'' g'' exit'', j'' < b →
+        prog.insns[j'']? = some (Insn.enterLoop id'' mn'' mx'' g'' exit'') → b + 1 < exit'' → j < exit'' := by
+  have := loopProg_insn hf h
+  simp only [loopInsnOk, Bool.and_eq_true, decide_eq_true_eq] at this
+  refine ⟨this.1, ?_⟩
+  have h2 := this.2
+  split at h2
+  · rename_i id mn mx g exit hb
+    simp only [Bool.and_eq_true, decide_eq_true_eq, List.all_eq_true, List.mem_range] at h2
+    refine ⟨id, mn, mx, g, exit, hb, h2.1, ?_⟩
+    intro j'' id'' mn'' mx'' g'' exit'' hlt h'' hin
+    have := h2.2 j'' hlt
+    simp only [h'', Bool.or_eq_true, Bool.not_eq_true', decide_eq_false_iff_not, decide_eq_true_eq] at this
+    rcases this with h3 | h3
+    · exact absurd hin h3
+    · exact h3
+  · simp at h2
+
+end Regress.VM.Pk
+
+namespace Regress.VM.Pk
+open Regress.VM.Bt (LoopData)
+
+/-! ### What a plain instruction does to `ip`, `pos` and the loop data -/
+
+/-- `p = pos`, or a strict move inside the input. -/
+def Adv (inp : Input) (fwd : Bool) (pos p : Nat) : Prop := p = pos ∨ MoveOk inp fwd pos p
+
+theorem MoveOk.trans {inp : Input} {fwd : Bool} {a b c : Nat} (h1 : MoveOk inp fwd a b)
+    (h2 : MoveOk inp fwd b c) : MoveOk inp fwd a c := by
+  refine ⟨fun hf => ?_, fun hf => ?_⟩
+  · have := h1.1 hf; have := h2.1 hf; omega
+  · have := h1.2 hf; have := h2.2 hf; omega
+
+theorem Adv.trans {inp : Input} {fwd : Bool} {a b c : Nat} (h1 : Adv inp fwd a b)
+    (h2 : Adv inp fwd b c) : Adv inp fwd a c := by
+  rcases h1 with rfl | h1
+  · exact h2
+  · rcases h2 with rfl | h2
+    · exact .inr h1
+    · exact .inr (MoveOk.trans h1 h2)
+
+theorem matchBytes_adv {inp : Input} {fwd : Bool} {pos p : Nat} {lit : List Nat}
+    (h : inp.matchBytes fwd pos lit = some p) : Adv inp fwd pos p := by
+  by_cases hl : lit = []
+  · subst hl
+    left
+    unfold Input.matchBytes Utf8.matchBytes Utf8.tryMoveRight Utf8.tryMoveLeft at h
+    cases fwd <;> simp at h <;> omega
+  · exact .inr (matchBytes_ok hl h)
+
+theorem backref_adv {inp : Input} {fwd : Bool} {rs re pos p : Nat}
+    (h : backref inp fwd rs re pos = some p) : Adv inp fwd pos p := by
+  unfold backref Input.subrangeEq at h
+  split at h
+  · simp at h
+  · exact matchBytes_adv (lit := Utf8.slice inp.bytes rs re) h
+
+theorem backrefIcaseLoop_adv (inp ref : Input) (fwd : Bool) : ∀ (fuel refPos pos p : Nat),
+    backrefIcaseLoop inp ref fwd fuel refPos pos = .ok (some p) → Adv inp fwd pos p := by
+  intro fuel
+  induction fuel with
+  | zero => intro refPos pos p h; simp [backrefIcaseLoop] at h
+  | succ fuel ih =>
+    intro refPos pos p h
+    unfold backrefIcaseLoop at h
+    split at h
+    · simp at h
+    · simp at h; exact .inl h.symm
+    · split at h
+      · simp at h
+      · simp at h
+      · rename_i hn
+        split at h
+        · exact Adv.trans (.inr (cursor_next_ok hn)) (ih _ _ _ h)
+        · simp at h
+
+theorem backrefIcase_adv {inp : Input} {fwd : Bool} {rs re pos p : Nat}
+    (h : backrefIcase inp fwd rs re pos = .ok (some p)) : Adv inp fwd pos p := by
+  unfold backrefIcase at h
+  split at h
+  · simp at h
+  · exact backrefIcaseLoop_adv _ _ _ _ _ _ _ h
+
+/-- Instructions other than look-arounds, `loop1`, `enterLoop`, `loopAgain`. -/
+def isPlain : Insn → Bool
+  | .lookahead .. => false
+  | .lookbehind .. => false
+  | .loop1 .. => false
+  | .enterLoop .. => false
+  | .loopAgain _ => false
+  | _ => true
+
+inductive FullSpec (prog : Prog) (inp : Input) (s : State) (fwd : Bool) (steps peak : Nat) : SM → Prop
+  | err (e) : FullSpec prog inp s fwd steps peak (.err e)
+  | fail (s' : State) (hl : s'.loops = s.loops) : FullSpec prog inp s fwd steps peak (.fail s' steps peak)
+  | complete (h : prog.insns[s.ip]? = some .goal) : FullSpec prog inp s fwd steps peak (.complete s steps peak)
+  | next (s' : State) (hip : s'.ip = s.ip + 1) (hl : s'.loops = s.loops)
+      (hp : Adv inp fwd s.pos s'.pos) : FullSpec prog inp s fwd steps peak (.cont s' steps peak)
+  | jump (t) (h : prog.insns[s.ip]? = some (.jump t)) (s' : State) (hip : s'.ip = t)
+      (hl : s'.loops = s.loops) (hp : s'.pos = s.pos) :
+      FullSpec prog inp s fwd steps peak (.cont s' steps peak)
+  | alt (sec) (h : prog.insns[s.ip]? = some (.alt sec)) (s1 s2 : State) (h1 : s1.ip = sec)
+      (h2 : s2.ip = s.ip + 1) (hl1 : s1.loops = s.loops) (hl2 : s2.loops = s.loops)
+      (hp1 : s1.pos = s.pos) (hp2 : s2.pos = s.pos) :
+      FullSpec prog inp s fwd steps peak (.split s1 s2 steps peak)
+
+section
+variable {prog : Prog} {inp : Input} {s : State} {fwd : Bool} {steps peak : Nat}
+
+theorem nextOrFail_full (b : Bool) (s1 : State) (h1 : s1.ip = s.ip) (hl : s1.loops = s.loops)
+    (hp : Adv inp fwd s.pos s1.pos) :
+    FullSpec prog inp s fwd steps peak (nextOrFail b s1 steps peak) := by
+  unfold nextOrFail; split
+  · exact .next _ (by simp [h1]) hl hp
+  · exact .fail _ hl
+
+theorem nextElemArm_full (f site) :
+    FullSpec prog inp s fwd steps peak (nextElemArm inp fwd s f site steps peak) := by
+  unfold nextElemArm; split
+  · exact .err _
+  · exact .fail _ rfl
+  · rename_i hn
+    split
+    · exact .err _
+    · exact nextOrFail_full _ _ rfl rfl (.inr (cursor_next_ok hn))
+
+theorem scmArm_full (r site) (h : ∀ p, r = .ok (some p) → Adv inp fwd s.pos p) :
+    FullSpec prog inp s fwd steps peak (scmArm r s site steps peak) := by
+  unfold scmArm; split
+  · exact .err _
+  · exact .fail _ rfl
+  · exact .next _ rfl rfl (h _ rfl)
+
+theorem lineArm_full (r m site) :
+    FullSpec prog inp s fwd steps peak (lineArm r m s site steps peak) := by
+  unfold lineArm; split
+  · exact .err _
+  · exact nextOrFail_full _ _ rfl rfl (.inl rfl)
+  · exact nextOrFail_full _ _ rfl rfl (.inl rfl)
+
+theorem wordBoundaryArm_full (f invert) :
+    FullSpec prog inp s fwd steps peak (wordBoundaryArm inp f invert s steps peak) := by
+  unfold wordBoundaryArm; split
+  · exact .err _
+  · split
+    · exact .err _
+    · exact nextOrFail_full _ _ rfl rfl (.inl rfl)
+
+theorem groupArm_full (g upd site) :
+    FullSpec prog inp s fwd steps peak (groupArm g upd s site steps peak) := by
+  unfold groupArm; split
+  · exact .err _
+  · exact nextOrFail_full _ _ rfl rfl (.inl rfl)
+
+theorem tryMatchState_full {look : Runner} {d : Nat} {i : Insn}
+    (hin : prog.insns[s.ip]? = some i) (hi : isPlain i = true) :
+    FullSpec prog inp s fwd steps peak (tryMatchState prog inp look (d + 1) s fwd steps peak) := by
+  unfold tryMatchState
+  simp only [hin]
+  cases i with
+  | goal => exact .complete hin
+  | justFail => exact .fail _ rfl
+  | char c => exact nextElemArm_full _ _
+  | charSet v => exact nextElemArm_full _ _
+  | byteSeq v =>
+    apply scmArm_full
+    intro p hp
+    simp only [Cursor.tryMatchLit, Except.ok.injEq] at hp
+    exact matchBytes_adv hp
+  | startOfLine m => exact lineArm_full _ _ _
+  | endOfLine m => exact lineArm_full _ _ _
+  | matchAny => exact nextElemArm_full _ _
+  | matchAnyExceptLineTerminator => exact nextElemArm_full _ _
+  | jump t => exact .jump t hin _ rfl rfl rfl
+  | alt sec => exact .alt sec hin _ _ rfl rfl rfl rfl rfl rfl
+  | beginCaptureGroup g => exact groupArm_full _ _ _
+  | endCaptureGroup g => exact groupArm_full _ _ _
+  | resetCaptureGroup g => exact groupArm_full _ _ _
+  | backRef g icase =>
+    simp only []; split
+    · exact .err _
+    · split
+      · split
+        · apply scmArm_full; intro p hp; exact backrefIcase_adv hp
+        · apply scmArm_full; intro p hp
+          simp only [Except.ok.injEq] at hp
+          exact backref_adv hp
+      · exact nextOrFail_full _ _ rfl rfl (.inl rfl)
+  | bracket idx => exact nextElemArm_full _ _
+  | asciiBracket bm =>
+    apply scmArm_full; intro p hp; exact .inr (Scm.matches_ok rfl hp)
+  | byteSet bs =>
+    apply scmArm_full; intro p hp; exact .inr (Scm.matches_ok rfl hp)
+  | wordBoundary inv => exact wordBoundaryArm_full _ _
+  | wordBoundaryUnicodeICase inv => exact wordBoundaryArm_full _ _
+  | _ => simp [isPlain] at hi
+
+end
+end Regress.VM.Pk
+
+namespace Regress.VM.Pk
+open Regress.VM.Bt (LoopData)
+
+/-! ### Every tick lowers the rank -/
+
+theorem pow3_step {a b c : Nat} (ha : a < c) (hb : b < c) : 3 ^ a + 3 ^ b + 1 ≤ 3 ^ c := by
+  obtain ⟨c, rfl⟩ : ∃ k, c = k + 1 := ⟨c - 1, by omega⟩
+  have h1 : 3 ^ a ≤ 3 ^ c := Nat.pow_le_pow_right (by omega) (by omega)
+  have h2 : 3 ^ b ≤ 3 ^ c := Nat.pow_le_pow_right (by omega) (by omega)
+  have h3 : 1 ≤ 3 ^ c := Nat.one_le_pow _ _ (by omega)
+  rw [Nat.pow_succ]; omega
+
+/-- The cost of a state in the loop argument. -/
+def rcost (prog : Prog) (L : Nat) (fwd : Bool) (s : State) : Nat := 3 ^ rank prog L fwd s
+
+theorem rcost_pos (prog : Prog) (L : Nat) (fwd : Bool) (s : State) : 1 ≤ rcost prog L fwd s :=
+  Nat.one_le_pow _ _ (by omega)
+
+section
+variable {prog : Prog} {inp : Input} {fwd : Bool}
+
+theorem ok_fail (s s' : State) (steps peak : Nat) :
+    (SM.fail s' steps peak).Ok (rcost prog inp.bytes.size fwd) steps (rcost prog inp.bytes.size fwd s) := by
+  have := rcost_pos prog inp.bytes.size fwd s
+  simp only [SM.Ok]; omega
+
+theorem ok_cont {s s' : State} (steps peak : Nat)
+    (h : rank prog inp.bytes.size fwd s' < rank prog inp.bytes.size fwd s) :
+    (SM.cont s' steps peak).Ok (rcost prog inp.bytes.size fwd) steps (rcost prog inp.bytes.size fwd s) := by
+  have := pow3_step h h
+  have := rcost_pos prog inp.bytes.size fwd s'
+  simp only [SM.Ok, rcost] at *; omega
+
+theorem ok_split {s s1 s2 : State} (steps peak : Nat)
+    (h1 : rank prog inp.bytes.size fwd s1 < rank prog inp.bytes.size fwd s)
+    (h2 : rank prog inp.bytes.size fwd s2 < rank prog inp.bytes.size fwd s) :
+    (SM.split s1 s2 steps peak).Ok (rcost prog inp.bytes.size fwd) steps (rcost prog inp.bytes.size fwd s) := by
+  have := pow3_step h1 h2
+  simp only [SM.Ok, rcost] at *; omega
+
+/-- A state with the same loop data and position (or a strictly advanced position) and a larger `ip`
+has a smaller rank. -/
+theorem rank_lt_forward {s s' : State} (hlt : s.ip < prog.insns.size) (hip : s.ip < s'.ip)
+    (hl : s'.loops = s.loops) (hp : Adv inp fwd s.pos s'.pos) :
+    rank prog inp.bytes.size fwd s' < rank prog inp.bytes.size fwd s := by
+  rcases hp with hp | hp
+  · apply rank_lt_of_le hp hip hlt
+    intro j i _
+    rw [hl, hp]
+    exact digit_mono_ip j i (by omega) _ _
+  · exact rank_lt_of_rem (rem_lt_of_moveOk hp)
+
+theorem plain_ok (hf : loopProg prog = true) {s : State} {steps peak : Nat} {sm : SM}
+    (hs : FullSpec prog inp s fwd steps peak sm) (hlt : s.ip < prog.insns.size) :
+    sm.Ok (rcost prog inp.bytes.size fwd) steps (rcost prog inp.bytes.size fwd s) := by
+  cases hs with
+  | err => simp [SM.Ok]
+  | fail s' => exact ok_fail _ _ _ _
+  | complete =>
+    have := rcost_pos prog inp.bytes.size fwd s
+    simp only [SM.Ok]; omega
+  | next s' hip hl hp => exact ok_cont _ _ (rank_lt_forward hlt (by omega) hl hp)
+  | jump t hj s' hip hl hp =>
+    have := loopProg_insn hf hj
+    simp only [loopInsnOk, decide_eq_true_eq] at this
+    exact ok_cont _ _ (rank_lt_forward hlt (by omega) hl (.inl hp))
+  | alt sec ha s1 s2 h1 h2 hl1 hl2 hp1 hp2 =>
+    have := loopProg_insn hf ha
+    simp only [loopInsnOk, decide_eq_true_eq] at this
+    exact ok_split _ _ (rank_lt_forward hlt (by omega) hl1 (.inl hp1))
+      (rank_lt_forward hlt (by omega) hl2 (.inl hp2))
+
+/-- The tail of the `Loop1CharBody` arm. -/
+theorem loop1_tail_ok2 {s : State} {mn : Nat} {g : Bool} (hlt : s.ip < prog.insns.size)
+    (tp : Option Nat) (s2 : State) (steps peak : Nat) (_hip : s2.ip = s.ip)
+    (hl : s2.loops = s.loops) (hpos : s2.pos = s.pos)
+    (htp : ∀ p, tp = some p → MoveOk inp fwd s.pos p) :
+    (match tp, decide (s.loop1Iters ≥ mn) with
+      | none, false => SM.fail s2 steps peak
+      | none, true => .cont { s2 with ip := s.ip + 2, loop1Iters := 0 } steps peak
+      | some tp, false => .cont { s2 with pos := tp, loop1Iters := s.loop1Iters + 1 } steps peak
+      | some tp, true =>
+        if g then
+          .split { s2 with ip := s.ip + 2, loop1Iters := 0 }
+            { s2 with pos := tp, loop1Iters := s.loop1Iters + 1 } steps peak
+        else
+          .split { s2 with pos := tp, loop1Iters := s.loop1Iters + 1 }
+            { s2 with ip := s.ip + 2, loop1Iters := 0 } steps peak).Ok
+      (rcost prog inp.bytes.size fwd) steps (rcost prog inp.bytes.size fwd s) := by
+  have hexit : rank prog inp.bytes.size fwd { s2 with ip := s.ip + 2, loop1Iters := 0 }
+      < rank prog inp.bytes.size fwd s :=
+    rank_lt_forward hlt (by simp) hl (.inl hpos)
+  have hstay : ∀ p, MoveOk inp fwd s.pos p →
+      rank prog inp.bytes.size fwd { s2 with pos := p, loop1Iters := s.loop1Iters + 1 }
+        < rank prog inp.bytes.size fwd s := fun p hmv => rank_lt_of_rem (rem_lt_of_moveOk hmv)
+  cases tp with
+  | none =>
+    cases decide (s.loop1Iters ≥ mn) with
+    | false => exact ok_fail _ _ _ _
+    | true => exact ok_cont _ _ hexit
+  | some p =>
+    have hmv := htp p rfl
+    cases decide (s.loop1Iters ≥ mn) with
+    | false => exact ok_cont _ _ (hstay p hmv)
+    | true =>
+      cases g
+      · simp only [Bool.false_eq_true, if_false]; exact ok_split _ _ (hstay p hmv) hexit
+      · simp only [if_true]; exact ok_split _ _ hexit (hstay p hmv)
+
+end
+end Regress.VM.Pk
+
+namespace Regress.VM.Pk
+open Regress.VM.Bt (LoopData)
+
+theorem digit_set_ne (j : Nat) (i : Insn) (ip pos : Nat) (loops : Array LoopData) (id : Nat)
+    (ld : LoopData) (h : ∀ id' mn mx g e, i = Insn.enterLoop id' mn mx g e → id' ≠ id) :
+    digit j i ip pos (loops.setIfInBounds id ld) = digit j i ip pos loops := by
+  cases i <;> simp only [digit]
+  rename_i id' mn mx g e
+  have := h id' mn mx g e rfl
+  rw [Array.getElem?_setIfInBounds_ne (by omega)]
+
+/-- Going back from `j'` to `b + 1` does not raise the digit of an earlier loop `j'' < b` whose body,
+if it contains `b + 1`, also contains `j'`. -/
+theorem digit_back {j'' b j' : Nat} (i : Insn) (pos : Nat) (loops : Array LoopData)
+    (h1 : j'' < b) (h2 : b < j')
+    (hn : ∀ id mn mx g e, i = Insn.enterLoop id mn mx g e → b + 1 < e → j' < e) :
+    digit j'' i (b + 1) pos loops ≤ digit j'' i j' pos loops := by
+  cases i <;> simp only [digit, Nat.le_refl]
+  rename_i id mn mx g e
+  have := hn id mn mx g e rfl
+  have c1 : ¬ b + 1 ≤ j'' := by omega
+  have c2 : ¬ j' ≤ j'' := by omega
+  simp only [c1, c2, if_false]
+  by_cases h3 : b + 1 < e
+  · simp [h3, this h3]
+  · simp [h3]
+
+section
+variable {prog : Prog} {inp : Input} {fwd : Bool}
+
+/-- Digits of the other instructions after `run_loop` updated the data of loop `id` (the loop at
+index `b`). -/
+theorem digit_other_set (hf : loopProg prog = true) {b id mn mx g exit}
+    (hb : prog.insns[b]? = some (Insn.enterLoop id mn mx g exit)) {j : Nat} {i : Insn}
+    (hj : prog.insns[j]? = some i) (hne : j ≠ b) (ip pos : Nat) (loops : Array LoopData)
+    (ld : LoopData) :
+    digit j i ip pos (loops.setIfInBounds id ld) = digit j i ip pos loops := by
+  apply digit_set_ne
+  intro id' mn' mx' g' e' hi
+  subst hi
+  exact (loopProg_enterLoop hf hb).2 j id' mn' mx' g' e' hj hne
+
+/-- `enterLoop` at `s.ip`: the two possible successor states have smaller rank. -/
+theorem rank_enterLoop (hf : loopProg prog = true) {s : State} {id mn mx g exit}
+    (hin : prog.insns[s.ip]? = some (Insn.enterLoop id mn mx g exit)) {ld : LoopData}
+    (hld : s.loops[id]? = some ld) (s' : State) (hpos : s'.pos = s.pos)
+    (hl : s'.loops = s.loops.setIfInBounds id { iters := 0, entry := s.pos })
+    (hip : s'.ip = s.ip + 1 ∨ s'.ip = exit) :
+    rank prog inp.bytes.size fwd s' < rank prog inp.bytes.size fwd s := by
+  have hexit := (loopProg_enterLoop hf hin).1
+  have hidlt : id < s.loops.size := lt_size_of_getElem? hld
+  apply rank_lt_of_digit hpos hin
+  · -- the digit of the loop itself
+    rw [hl, hpos]
+    simp only [digit, Nat.le_refl, if_true]
+    have hget : (s.loops.setIfInBounds id { iters := 0, entry := s.pos })[id]?
+        = some { iters := 0, entry := s.pos } := by
+      simp [hidlt]
+    rcases hip with hip | hip
+    · rw [hip]
+      have c1 : ¬ s.ip + 1 ≤ s.ip := by omega
+      simp only [c1, if_false]
+      split
+      · rw [hget]; simp [loopActual]
+      · omega
+    · rw [hip]
+      have c1 : ¬ exit ≤ s.ip := by omega
+      simp [c1]
+  · intro j i hj hji
+    rw [hl, hpos, digit_other_set hf hin hji (by omega)]
+    apply digit_mono_ip
+    rcases hip with hip | hip <;> omega
+
+/-- `loopAgain b` at `s.ip`: the two possible successor states have smaller rank. -/
+theorem rank_loopAgain (hf : loopProg prog = true) {s : State} {b : Nat}
+    (hin : prog.insns[s.ip]? = some (Insn.loopAgain b)) {id mn mx g exit}
+    (hb : prog.insns[b]? = some (Insn.enterLoop id mn mx g exit)) {ld : LoopData}
+    (hld : s.loops[id]? = some ld)
+    (hgo : ¬ (ld.iters + 1 > mn ∧ ld.entry = s.pos))
+    (s' : State) (hpos : s'.pos = s.pos)
+    (hl : s'.loops = s.loops.setIfInBounds id { iters := ld.iters + 1, entry := s.pos })
+    (hip : s'.ip = b + 1 ∨ s'.ip = exit) :
+    rank prog inp.bytes.size fwd s' < rank prog inp.bytes.size fwd s := by
+  obtain ⟨hbj, id2, mn2, mx2, g2, exit2, hb2, hjexit, hnest⟩ := loopProg_loopAgain hf hin
+  rw [hb] at hb2
+  simp only [Option.some.injEq, Insn.enterLoop.injEq] at hb2
+  obtain ⟨rfl, rfl, rfl, rfl, rfl⟩ := hb2
+  have hidlt : id < s.loops.size := lt_size_of_getElem? hld
+  have hget : (s.loops.setIfInBounds id { iters := ld.iters + 1, entry := s.pos })[id]?
+      = some { iters := ld.iters + 1, entry := s.pos } := by
+    simp [hidlt]
+  apply rank_lt_of_digit hpos hb
+  · rw [hl, hpos]
+    simp only [digit]
+    have c0 : ¬ s.ip ≤ b := by omega
+    simp only [c0, hjexit, if_true, if_false, hld, loopActual]
+    rcases hip with hip | hip
+    · rw [hip]
+      have c1 : ¬ b + 1 ≤ b := by omega
+      have c2 : b + 1 < exit := by omega
+      simp only [c1, c2, if_true, if_false, hget]
+      by_cases he : ld.entry = s.pos
+      · have hle : ld.iters + 1 ≤ mn := Nat.le_of_not_gt (fun hc => hgo ⟨hc, he⟩)
+        simp only [he, if_true]; omega
+      · simp only [he, if_false]; omega
+    · rw [hip]
+      have c1 : ¬ exit ≤ b := by omega
+      simp only [c1, Nat.lt_irrefl, if_false]
+      by_cases he : ld.entry = s.pos
+      · have hle : ld.iters + 1 ≤ mn := Nat.le_of_not_gt (fun hc => hgo ⟨hc, he⟩)
+        simp only [he, if_true]; omega
+      · simp only [he, if_false]; omega
+  · intro j i hj hji
+    rw [hl, hpos, digit_other_set hf hb hji (by omega)]
+    rcases hip with hip | hip
+    · rw [hip]
+      apply digit_back i s.pos s.loops hj hbj
+      intro id' mn' mx' g' e' hi hlt
+      subst hi
+      exact hnest j id' mn' mx' g' e' hj hji hlt
+    · rw [hip]; exact digit_mono_ip j i (by omega) _ _
+
+end
+end Regress.VM.Pk
+
+namespace Regress.VM.Pk
+open Regress.VM.Bt (LoopData)
+
+section
+variable {prog : Prog} {inp : Input} {fwd : Bool}
+
+theorem runLoop_init_ok (hf : loopProg prog = true) {s : State} {id mn mx g exit}
+    (hin : prog.insns[s.ip]? = some (Insn.enterLoop id mn mx g exit)) (steps peak : Nat) :
+    (runLoop s id mn mx g exit true steps peak).Ok (rcost prog inp.bytes.size fwd) steps
+      (rcost prog inp.bytes.size fwd s) := by
+  unfold runLoop
+  cases hld : s.loops[id]? with
+  | none => simp [SM.Ok]
+  | some ld =>
+    have hr := rank_enterLoop (inp := inp) (fwd := fwd) hf hin hld
+    simp only [if_true]
+    repeat' split
+    all_goals first
+      | exact ok_fail _ _ _ _
+      | exact ok_cont _ _ (hr _ rfl rfl (.inl rfl))
+      | exact ok_cont _ _ (hr _ rfl rfl (.inr rfl))
+      | exact ok_split _ _ (hr _ rfl rfl (.inr rfl)) (hr _ rfl rfl (.inl rfl))
+      | exact ok_split _ _ (hr _ rfl rfl (.inl rfl)) (hr _ rfl rfl (.inr rfl))
+
+theorem runLoop_again_ok (hf : loopProg prog = true) {s : State} {b : Nat}
+    (hin : prog.insns[s.ip]? = some (Insn.loopAgain b)) {id mn mx g exit}
+    (hb : prog.insns[b]? = some (Insn.enterLoop id mn mx g exit)) (steps peak : Nat) :
+    (runLoop { s with ip := b } id mn mx g exit false steps peak).Ok
+      (rcost prog inp.bytes.size fwd) steps (rcost prog inp.bytes.size fwd s) := by
+  unfold runLoop
+  cases hld : s.loops[id]? with
+  | none => simp [SM.Ok]
+  | some ld =>
+    simp only [Bool.false_eq_true, if_false]
+    split
+    · exact ok_fail _ _ _ _
+    · rename_i hc
+      have hgo : ¬ (ld.iters + 1 > mn ∧ ld.entry = s.pos) := by
+        intro h; apply hc; simp [h.1, h.2]
+      have hr := rank_loopAgain (inp := inp) (fwd := fwd) hf hin hb hld hgo
+      repeat' split
+      all_goals first
+        | exact ok_fail _ _ _ _
+        | exact ok_cont _ _ (hr _ rfl rfl (.inl rfl))
+        | exact ok_cont _ _ (hr _ rfl rfl (.inr rfl))
+        | exact ok_split _ _ (hr _ rfl rfl (.inr rfl)) (hr _ rfl rfl (.inl rfl))
+        | exact ok_split _ _ (hr _ rfl rfl (.inl rfl)) (hr _ rfl rfl (.inr rfl))
+
+theorem tryMatchState_ok2 (hf : loopProg prog = true) (hl1 : loop1Scm prog = true)
+    (look : Runner) (d : Nat) (s : State) (steps peak : Nat) :
+    (tryMatchState prog inp look d s fwd steps peak).Ok (rcost prog inp.bytes.size fwd) steps
+      (rcost prog inp.bytes.size fwd s) := by
+  cases d with
+  | zero => simp [tryMatchState, SM.Ok]
+  | succ d =>
+    cases hin : prog.insns[s.ip]? with
+    | none => simp [tryMatchState, hin, SM.Ok]
+    | some i =>
+      have hlt := lt_size_of_getElem? hin
+      by_cases hi : isPlain i = true
+      · exact plain_ok hf (tryMatchState_full hin hi) hlt
+      · cases i with
+        | lookahead n sg eg k =>
+          have := loopProg_insn hf hin
+          simp [loopInsnOk] at this
+        | lookbehind n sg eg k =>
+          have := loopProg_insn hf hin
+          simp [loopInsnOk] at this
+        | enterLoop id mn mx g exit =>
+          unfold tryMatchState; simp only [hin]
+          exact runLoop_init_ok hf hin steps peak
+        | loopAgain b =>
+          obtain ⟨_, id, mn, mx, g, exit, hb, _, _⟩ := loopProg_loopAgain hf hin
+          unfold tryMatchState; simp only [hin, hb]
+          exact runLoop_again_ok hf hin hb steps peak
+        | loop1 mn mx g =>
+          obtain ⟨b, hbin, hb⟩ := loop1Scm_body hl1 hin
+          have hbp : isPlain b = true := by cases b <;> simp [scmAccepted] at hb <;> rfl
+          unfold tryMatchState; simp only [hin]
+          by_cases hlt' : Bt.ltMax s.loop1Iters mx = true
+          · simp only [hlt', if_true]
+            cases d with
+            | zero => simp [tryMatchState, SM.Ok]
+            | succ d =>
+              have hbody := tryMatchState_body (inp := inp) (look := look) (d := d)
+                (s := { s with ip := s.ip + 1 }) (fwd := fwd) (steps := steps) (peak := peak)
+                hbin hb
+              have hfull := tryMatchState_full (inp := inp) (look := look) (d := d)
+                (s := { s with ip := s.ip + 1 }) (fwd := fwd) (steps := steps) (peak := peak)
+                hbin hbp
+              generalize tryMatchState prog inp look (d + 1) { s with ip := s.ip + 1 } fwd steps peak
+                = r at hbody hfull
+              cases hbody with
+              | err e => simp [SM.Ok]
+              | fail s' =>
+                have hl : s'.loops = s.loops := by cases hfull with | fail _ hl => exact hl
+                simp only []
+                exact loop1_tail_ok2 hlt none _ steps peak rfl hl rfl (by intro p hp; cases hp)
+              | cont s' hmv =>
+                have hl : s'.loops = s.loops := by
+                  cases hfull with
+                  | next _ _ hl _ => exact hl
+                  | jump _ _ _ _ hl _ => exact hl
+                simp only []
+                exact loop1_tail_ok2 hlt (some s'.pos) _ steps peak rfl hl rfl
+                  (by intro p hp; cases hp; exact hmv)
+          · simp only [hlt']
+            exact loop1_tail_ok2 hlt none s steps peak rfl rfl rfl (by intro p hp; cases hp)
+        | _ => simp [isPlain] at hi
+
+end
+
+/-- The potential of a state stack in the loop argument. -/
+def rcostSum (prog : Prog) (L : Nat) (fwd : Bool) (states : Array State) : Nat :=
+  (states.toList.map (rcost prog L fwd)).sum
+
+theorem rcostSum_push (prog : Prog) (L : Nat) (fwd : Bool) (states : Array State) (s : State) :
+    rcostSum prog L fwd (states.push s) = rcostSum prog L fwd states + rcost prog L fwd s := by
+  simp [rcostSum, List.sum_append]
+
+theorem runStates_terminates2 (prog : Prog) (hf : loopProg prog = true)
+    (hl1 : loop1Scm prog = true) (inp : Input) (limit : Nat) :
+    ∀ (sf : Nat) (states : Array State) (fwd : Bool) (steps peak : Nat),
+      rcostSum prog inp.bytes.size fwd states + 1 ≤ sf →
+      steps + rcostSum prog inp.bytes.size fwd states ≤ limit →
+      (runStates prog inp limit sf states fwd steps peak).within
+        (steps + rcostSum prog inp.bytes.size fwd states) := by
+  intro sf
+  induction sf with
+  | zero => intro states fwd steps peak h1 _; omega
+  | succ sf ih =>
+    intro states fwd steps peak h1 h2
+    simp only [runStates]
+    cases hb : states.back? with
+    | none => simp only [Outcome.within]; omega
+    | some s =>
+      obtain ⟨rest, rfl⟩ := Array.back?_eq_some_iff.mp hb
+      rw [rcostSum_push] at h1 h2 ⊢
+      have hc := rcost_pos prog inp.bytes.size fwd s
+      simp only []
+      have hlim : ¬ steps ≥ limit := by omega
+      simp only [hlim, if_false]
+      generalize (if peak < (rest.push s).size then (rest.push s).size else peak) = peak1
+      have hok := tryMatchState_ok2 (inp := inp) (fwd := fwd) hf hl1
+        (fun s0 dirFwd steps peak => runStates prog inp limit sf #[s0] dirFwd steps peak)
+        (prog.insns.size + 1) s (steps + 1) peak1
+      cases hr : tryMatchState prog inp
+          (fun s0 dirFwd steps peak => runStates prog inp limit sf #[s0] dirFwd steps peak)
+          (prog.insns.size + 1) s fwd (steps + 1) peak1 with
+      | err e => simp [Outcome.within]
+      | outOfFuel => rw [hr] at hok; exact hok
+      | complete s2 st2 pk2 =>
+        rw [hr] at hok; simp only [SM.Ok] at hok
+        simp only [Outcome.within]; omega
+      | fail s2 st2 pk2 =>
+        rw [hr] at hok; simp only [SM.Ok] at hok
+        simp only [Array.pop_push]
+        exact Outcome.within_mono (by omega) (ih rest fwd st2 pk2 (by omega) (by omega))
+      | cont s2 st2 pk2 =>
+        rw [hr] at hok; simp only [SM.Ok] at hok
+        simp only [Array.pop_push]
+        have := ih (rest.push s2) fwd st2 pk2 (by rw [rcostSum_push]; omega)
+          (by rw [rcostSum_push]; omega)
+        rw [rcostSum_push] at this
+        exact Outcome.within_mono (by omega) this
+      | split s2 new st2 pk2 =>
+        rw [hr] at hok; simp only [SM.Ok] at hok
+        simp only [Array.pop_push]
+        have := ih ((rest.push s2).push new) fwd st2 pk2
+          (by rw [rcostSum_push, rcostSum_push]; omega) (by rw [rcostSum_push, rcostSum_push]; omega)
+        rw [rcostSum_push, rcostSum_push] at this
+        exact Outcome.within_mono (by omega) this
+
+/-- Explicit tick bound for one attempt on a program with loops: `3 ^ rankBound prog L`. -/
+theorem tryAtPos_terminates2 (prog : Prog) (hf : loopProg prog = true)
+    (hl1 : loop1Scm prog = true) (inp : Input) (fuel : Nat) (init : State) (fwd : Bool)
+    (h : 3 ^ rankBound prog inp.bytes.size ≤ fuel) :
+    (tryAtPos prog inp fuel init fwd).within (3 ^ rankBound prog inp.bytes.size) := by
+  have e : rcostSum prog inp.bytes.size fwd #[init] = rcost prog inp.bytes.size fwd init := by
+    simp [rcostSum]
+  have hc : rcost prog inp.bytes.size fwd init ≤ 3 ^ rankBound prog inp.bytes.size :=
+    Nat.pow_le_pow_right (by omega) (Nat.le_of_lt (rank_lt_bound _ _ _ _))
+  have := runStates_terminates2 prog hf hl1 inp fuel (fuel + 1) #[init] fwd 0 0
+    (by rw [e]; omega) (by rw [e]; omega)
+  rw [e] at this
+  exact Outcome.within_mono (by omega) this
+
+end Regress.VM.Pk
